@@ -673,7 +673,7 @@ def cmd_fromsbytes(b, cell=None):
     return Cmd(line, check, cell=cell, prop='C09')
 
 
-def cmd_new(ws, kindsign, cell=None):
+def cmd_new(ws, kindsign, cell=None, prop='C09'):
     line = 'new %s %s' % (kindsign, W(ws))
     v = 0
     for i, w in enumerate(ws):
@@ -684,10 +684,10 @@ def cmd_new(ws, kindsign, cell=None):
     def check(res):
         out = []
         for nm in ('new', 'slice', 'assign'):
-            out += chk_big('C09', res.get(nm), f * v, nm + ' from u32 words', kind)
+            out += chk_big(prop, res.get(nm), f * v, nm + ' from u32 words', kind)
         return out
 
-    return Cmd(line, check, cell=cell, prop='C09')
+    return Cmd(line, check, cell=cell, prop=prop)
 
 
 def cmd_iter(width, a, kind, ops, cell=None):
